@@ -20,7 +20,9 @@ class Cell(NullCell):
     def __init__(self, bits: BitarrayLike, refs: typing.List["Cell"], cell_type: int = -1) -> None:
         if not isinstance(bits, TvmBitarray):
             # a plain bitarray has no overflow / underflow checks and would be padded in place by get_data_bytes
-            bits = TvmBitarray(1023, bits)
+            # (extend copies bit by bit: the result is big-endian whatever the endianness of the argument)
+            plain, bits = bits, TvmBitarray(1023)
+            bits.extend(plain)
         self.bits: BitarrayLike = bits
         self.refs: list = refs
         self.type_: int = cell_type
